@@ -126,6 +126,17 @@ type EventLog struct {
 	// sched is the hash of the release sequence only (actor role, op kind, detail class): the
 	// "interleaving" measure.
 	sched hash.Hash
+	// Frac marks, for every logged event, the position of its instant inside its millisecond (in
+	// microseconds): timers of the code under test run in whole milliseconds from some logged event,
+	// so an instant whose fraction is unmarked coincides with nothing in the run.
+	Frac [1000]bool
+}
+
+// TieFree reports that nothing in the run happened at (or within one microsecond of) the same
+// position inside a millisecond as the instant at.
+func (l *EventLog) TieFree(at time.Duration) bool {
+	f := int(at/time.Microsecond) % 1000
+	return !l.Frac[f] && !l.Frac[(f+1)%1000] && !l.Frac[(f+999)%1000]
 }
 
 func (l *EventLog) add(at time.Duration, actor, opname, detail string) {
@@ -137,6 +148,9 @@ func (l *EventLog) add(at time.Duration, actor, opname, detail string) {
 	l.h.Write([]byte(line))
 	l.sched.Write([]byte(actor + " " + opname + " " + detail + "\n"))
 	l.N++
+	if opname != "cancel" {
+		l.Frac[int(at/time.Microsecond)%1000] = true
+	}
 	if l.Keep {
 		l.Lines = append(l.Lines, line[:len(line)-1])
 	}
@@ -208,6 +222,7 @@ type World struct {
 	Choices                   int // decisions with more than one candidate
 	MaxVirtual                time.Duration
 	Overran                   bool
+	capAt                     time.Duration
 }
 
 func (w *World) now() time.Duration { return time.Since(w.T0) }
@@ -368,8 +383,24 @@ func (w *World) release(o *op, res opResult) {
 
 const virtualCap = 200 * time.Hour
 
+// overrunMargin is how long past everything the scenario itself schedules (call starts, scripted
+// gaps between repeats, cancellations) a run may go on in virtual time before it is declared never
+// to return. The longest legitimate run (255 TTLs, seconds per TTL) stays far below it; a loop that
+// never ends costs a second of real time instead of the watchdog's patience.
+const overrunMargin = 30 * time.Minute
+
+func (w *World) horizon() time.Duration {
+	var h time.Duration
+	for _, c := range w.Calls {
+		n := max(c.C.Repeat, 1)
+		h += time.Duration(c.C.StartUs+int64(n)*c.C.GapUs+c.C.CancelAtUs) * time.Microsecond
+	}
+	return min(h+overrunMargin, virtualCap)
+}
+
 // Run is the scheduler: the root function of the bubble.
 func (w *World) Run() {
+	w.capAt = w.horizon()
 	for ci := range w.Calls {
 		w.schedule(event{at: time.Duration(w.Calls[ci].C.StartUs) * time.Microsecond, kind: "start", call: ci})
 	}
@@ -390,7 +421,7 @@ func (w *World) Run() {
 		if w.allDone() {
 			break
 		}
-		if now > virtualCap {
+		if now > w.capAt {
 			w.Overran = true
 			break
 		}
